@@ -209,6 +209,8 @@ def main():
             try:
                 args = [f"a{j}" for j in range(len(c["params"]))]
                 ts = ex.func_tree(fdef, args)
+                if len(ts) == 2 and ts[0].endswith("#0") and ts[1].endswith("#1") and ts[0][:-2] == ts[1][:-2]:
+                    ts = [ts[0][:-2]]     # both outputs of one two-output op: the op itself
                 rec["tree"] = ts[0] if len(ts) == 1 else "tuple(" + ",".join(ts) + ")"
             except NoTree as e:
                 rec["error"] = f"no tree: {e}"
